@@ -43,9 +43,13 @@ class Prog:
         self.prolog = ""
         self.glyph_stmts = []     # extra statements in the glyph table
         self.feature_text = ""
+        self.raw_gdl = None
+        self.gattr = None
 
     # ---- GDL text -------------------------------------------------------
     def gdl(self):
+        if self.raw_gdl is not None:
+            return self.raw_gdl
         out = ['#include "stddef.gdh"', self.prolog, "table(glyph)"]
         if self.class_stmts is not None:
             out += self.class_stmts
@@ -116,6 +120,7 @@ class Prog:
             defs = [conv(self.class_trees.get(nm, {"k": "glyphs", "g": self.classes[nm]})) for nm in names]
             defs.append({"k": "glyphs", "g": list(range(n + 2))})
         return {"numGlyphs": n + 2, "numReal": n, "lb": n, "phantom": n + 1, "anyClass": any_id,
+                "gattr": self.gattr,
                 "classes": classes, "classDefs": defs, "classNames": names + ["ANY"], "passes": passes}
 
 
@@ -369,6 +374,77 @@ def gen_class_program(rng, size="small"):
         c = nd[0] if nd else names[0]
         rules.append(Rule([Item(cls=c, mod=True, out=None)]))
     prog.tables.append(("sub", [rules]))
+    return prog
+
+
+def gen_gattr_program(rng, same_line=False, with_defaults_case=True):
+    """Family 'gattr' (C05): overlapping classes assigning the same glyph attributes from statements spread over
+    environments with AttributeOverride on/off; user attributes identified in the font through a marker glyph."""
+    prog = Prog()
+    prog.nglyphs = rng.choice([16, 24, 32])
+    font, glyphs, cmap = ttf.simple_font(prog.nglyphs)
+    prog.font, prog.cmap = font, cmap
+    nattr = rng.randint(1, 5)
+    lines = ['#include "stddef.gdh"', "table(glyph)"]
+    prog.class_order = ["cM"]
+    prog.classes["cM"] = [2]
+    lines.append("cM = glyphid(2) {%s};" % "; ".join("ua%d = %d" % (j, 1000 + j) for j in range(nattr)))
+    ncls = rng.randint(2, 6)
+    for k in range(ncls):
+        name = "c%d" % k
+        size = rng.randint(1, 8)
+        if rng.random() < 0.5:
+            st = rng.randint(3, prog.nglyphs - 1)
+            val = list(range(st, min(prog.nglyphs, st + size)))
+        else:
+            val = sorted(rng.sample(range(3, prog.nglyphs), min(size, prog.nglyphs - 3)))
+        prog.classes[name] = val
+        prog.class_order.append(name)
+        lines.append("%s = %s;" % (name, glyph_list_text(val)))
+    lines.append("cS1 = glyphid(3); cS2 = glyphid(4);")
+    prog.classes["cS1"] = [3]
+    prog.classes["cS2"] = [4]
+    prog.class_order += ["cS1", "cS2"]
+    lines.append("endtable;")
+    assigns = []
+    order = 0
+    names = prog.class_order
+    for _b in range(rng.randint(1, 5)):
+        ov = rng.random() < 0.6
+        lines.append("environment {AttributeOverride = %s};" % ("true" if ov else "false"))
+        lines.append("table(glyph)")
+        for _s in range(rng.randint(1, 5)):
+            cls = rng.choice(["c%d" % k for k in range(ncls)])
+            parts = []
+            used = set()
+            for _a in range(rng.randint(1, 2)):
+                if rng.random() < 0.2 and "bw" not in used:
+                    v = rng.choice([0, 7, 10, 15, 20, 25, 30, 40, 50])
+                    parts.append(("breakweight", 1000, v))
+                    used.add("bw")
+                else:
+                    j = rng.randrange(nattr)
+                    if j in used:
+                        continue
+                    used.add(j)
+                    v = rng.choice([0, 1, 5, 9, 17, 255, 256, -1, -300, 32767, -32767, rng.randint(-2000, 2000)])
+                    parts.append(("ua%d" % j, j, v))
+            if not parts:
+                continue
+            if same_line and lines[-1].startswith("c") and rng.random() < 0.5:
+                lines[-1] += " %s {%s};" % (cls, "; ".join("%s = %d" % (nm, v) for nm, _j, v in parts))
+            else:
+                lines.append("%s {%s};" % (cls, "; ".join("%s = %d" % (nm, v) for nm, _j, v in parts)))
+            ln = len(lines)
+            for nm, j, v in parts:
+                assigns.append({"order": order, "line": ln, "override": ov, "cls": names.index(cls), "attr": j, "value": v})
+                order += 1
+        lines.append("endtable;")
+        lines.append("endenvironment;")
+    lines.append("table(sub) cS1 > cS2; endtable;")
+    prog.raw_gdl = "\n".join(lines) + "\n"
+    prog.gattr = {"marker": 2, "markerBase": 1000, "numAttrs": nattr, "spaceGlyphs": [1], "assigns": assigns}
+    prog.class_defs = {nm: glyph_list_text(prog.classes[nm]) for nm in names}
     return prog
 
 
